@@ -266,3 +266,122 @@ def _selfcheck_rows():
     assert filter_rows(rows, not_equals=[{'a': 1}]) == [rows[1]]
     assert filter_rows(rows, equals=[{'a': 2}], not_equals=[{'b': 'x'}]) == [rows[1], rows[2]]
     return 6
+
+
+# ---------------------------------------------------------------------------------------------
+# join (C11)
+
+def render_key(spec, row, n):
+    if isinstance(spec, (list, tuple)):
+        return ':'.join(str(n if k == '#' else row[k]) for k in spec)
+    return spec.format(**dict(row, **{'#': n}))
+
+
+def key_fields(spec):
+    if isinstance(spec, (list, tuple)):
+        return list(spec)
+    return re.findall(r'\{(.*?)\}', spec)
+
+
+class AnyOf:
+    """Aggregate `any`: every value of the group is acceptable."""
+    def __init__(self, values):
+        self.values = values
+
+
+class AsSet:
+    def __init__(self, values):
+        self.values = values
+
+
+class AsCounters:
+    def __init__(self, values):
+        self.values = values
+
+
+class EitherOf:
+    def __init__(self, *alts):
+        self.alts = alts
+
+
+def aggregate(agg, group, name, name_given=True):
+    """Documented aggregate over the non-null values of `name` in the group's rows (in order)."""
+    vals = [r.get(name) for r in group]
+    nn = [v for v in vals if v is not None]
+    if agg == 'count':
+        return len(nn) if name_given else len(group)
+    if agg == 'array':
+        return list(nn)
+    if agg == 'set':
+        return AsSet(nn)
+    if agg == 'counters':
+        return AsCounters(nn)
+    if not nn:
+        return None
+    if agg == 'sum':
+        if isinstance(nn[0], str):
+            return EitherOf(''.join(nn), ''.join(reversed(nn)))
+        t = nn[0]
+        for v in nn[1:]:
+            t = t + v
+        return t
+    if agg == 'avg':
+        return sum(nn) / len(nn)
+    if agg == 'median':
+        s = sorted(nn)
+        m = len(s) // 2
+        return s[m] if len(s) % 2 else (s[m - 1] + s[m]) / 2
+    if agg == 'max':
+        return max(nn)
+    if agg == 'min':
+        return min(nn)
+    if agg == 'first':
+        return nn[0]
+    if agg == 'last':
+        return nn[-1]
+    if agg == 'any':
+        return AnyOf(nn)
+    raise KeyError(agg)
+
+
+def join(source_rows, target_rows, source_key, target_key, fields, mode, source_fields):
+    """fields: {target_field: {'name':..., 'aggregate':..., '_name_given': bool}} already expanded.
+    -> (ordered_rows, unordered_tail_rows). Rows are dicts whose values may be AnyOf/AsSet/... markers."""
+    groups, order = {}, []
+    for n, r in enumerate(source_rows, start=1):
+        k = render_key(source_key, r, n)
+        if k not in groups:
+            groups[k] = []
+            order.append(k)
+        groups[k].append(r)
+
+    def aggs(k):
+        return {f: aggregate(s['aggregate'], groups[k], s['name'], s.get('_name_given', True))
+                for f, s in fields.items()}
+    if target_key is None:      # deduplication mode: one aggregated row per distinct key, unordered
+        return [], [aggs(k) for k in order]
+    out, used = [], set()
+    for n, r in enumerate(target_rows, start=1):
+        k = render_key(target_key, r, n)
+        if k in groups:
+            used.add(k)
+            out.append(dict(r, **aggs(k)))
+        elif mode == 'inner':
+            continue
+        else:
+            out.append(dict(r, **{f: r.get(f) for f in fields}))
+    tail = []
+    if mode == 'full-outer':
+        skf, tkf = key_fields(source_key), key_fields(target_key)
+        for k in order:
+            if k not in used:
+                row = aggs(k)
+                last = groups[k][-1]
+                for sf, tf in zip(skf, tkf):
+                    if tf == '#':
+                        continue
+                    vals = [g.get(sf) for g in groups[k]]
+                    row[tf] = vals[0] if all(v == vals[0] and type(v) is type(vals[0]) for v in vals) \
+                        else AnyOf(vals)
+                tail.append(row)
+    return out, tail
